@@ -91,6 +91,16 @@ func (e *Engine) checkObligation(kind, label string, prop *T) {
 		e.obligs = append(e.obligs, ob)
 		return
 	}
+	// Dropping conjuncts of the path condition keeps "unsat" sound. Regular-expression memberships (identifier
+	// character sets) are rarely needed for a proof but regularly stall the string solvers: try without them first.
+	if weak, dropped := e.withoutRegex(); dropped > 0 {
+		script, _, _ := buildScript(append(weak, Not(prop)), nil)
+		if wr := e.pf.Check(script, "", 5000); wr.Res == "unsat" {
+			ob.Verdict, ob.Solver, ob.Ms = "unsat", wr.Solver+" (regex facts dropped)", time.Since(t0).Milliseconds()
+			e.obligs = append(e.obligs, ob)
+			return
+		}
+	}
 	r, names, rounds := e.solveConcrete([]*T{Not(prop)}, e.cfg.AssertTimeoutMs)
 	if rounds > 0 {
 		ob.Site = fmt.Sprintf("concretisation rounds: %d", rounds)
@@ -249,4 +259,39 @@ func (e *Engine) hashUF(name string, arg *T, n int) *T {
 	t.FixLen = n
 	e.addAxiom(fmt.Sprintf("len:%d", t.id), Eq(mk("str.len", IntS, t), IntConst(int64(n))))
 	return t
+}
+
+func hasRegex(t *T, seen map[*T]bool) bool {
+	if seen[t] {
+		return false
+	}
+	seen[t] = true
+	if t.Op == "str.in_re" || (t.Op == "uf" && t.Name == "trimspace") {
+		return true
+	}
+	for _, a := range t.Args {
+		if hasRegex(a, seen) {
+			return true
+		}
+	}
+	return false
+}
+
+// withoutRegex returns axioms+pc minus every conjunct that mentions a regular-expression membership.
+func (e *Engine) withoutRegex() ([]*T, int) {
+	var out []*T
+	dropped := 0
+	for _, lst := range [][]*T{e.axioms, e.pc} {
+		for _, c := range lst {
+			if hasRegex(c, map[*T]bool{}) {
+				dropped++
+				continue
+			}
+			out = append(out, c)
+		}
+	}
+	if e.collisionFree {
+		out = append(out, collisionAxioms(out)...)
+	}
+	return out, dropped
 }
